@@ -3,7 +3,7 @@ the property evaluated on the real vm::run through the run-stats hook."""
 from . import core, gen, engine, engprop
 from .core import hexs
 
-THEOREMS = ["C07_limit_prefix", "C07_limit_enough", "C07_limit_fires_only_if", "C07_stack_bound"]
+THEOREMS = ["C07_limit_prefix", "C07_limit_enough", "C07_limit_fires_only_if", "C07_stack_bound", "C07_vm_terminates", "C07_terminates_from_pattern_string"]
 LIMITS = ["0", "1", "2", "3", "5", "10", "100", "1000000"]
 
 
